@@ -117,7 +117,7 @@ PROPS = {
         'profiles': [SAOLONG, SAO],
         'projection': ['order.Shard+keys', 'order.Shard#7', 'order.Shard#8', 'order.Shard#9', 'order.Order+keys', 'model.Metadata+keys', 'model.Metadata#11',
                        'sao.ExpiredShard', 'model.ExpiredData', 'node.Pledge#5', 'node.Pledge#1', 'market.Worker'],
-        'monitors': ['ref.completed_scheduled', 'sched.'], 'families': ['block', 'sao'],
+        'monitors': ['ref.completed_scheduled', 'sched.meta_scheduled', 'sched.expdata_live', 'sched.meta_covers_shards', 'sched.future'], 'families': ['block', 'sao'],
     },
     'C12': {
         'theorems': 'Properties/C12', 'obligation_files': ['Obligations/ObShape'],
